@@ -88,6 +88,10 @@ extern int mpt_path_add(MPT_STRUCT(path) *path, int add)
 		len += add;
 		data[len++] = path->assign;
 	}
+	/* data of a plain string was copied to an own buffer */
+	if (arr._buf && !(path->flags & MPT_PATHFLAG(HasArray))) {
+		path->flags |= MPT_PATHFLAG(HasArray);
+	}
 	path->base  = data;
 	path->len   = len - path->off;
 	
